@@ -14,6 +14,7 @@ pub struct Edge {
 pub struct Graph {
     pub nstates: usize,
     pub init: usize,
+    pub init_proj: Value,
     pub edges: Vec<Edge>,
     pub parent: Vec<i64>,
     pub out: Vec<Vec<usize>>,
@@ -44,7 +45,7 @@ pub fn load(path: &str) -> Graph {
     for (i, e) in edges.iter().enumerate() {
         out[e.s].push(i);
     }
-    Graph { nstates, init, edges, parent, out }
+    Graph { nstates, init, init_proj: v["init_proj"].clone(), edges, parent, out }
 }
 
 /// the real object under replay
